@@ -82,6 +82,36 @@ pub fn run(ctx: &mut Ctx) {
             strings.push(v);
         }
     }
+    // command lines: whatever the arguments, a diagnostic or a normal outcome, never a panic
+    let clis: Vec<Vec<&[u8]>> = vec![
+        vec![b"-j", b"0"], vec![b"-j", b"1"], vec![b"-j", b"abc"], vec![b"-j"], vec![b"-j", b"-1"], vec![b"-j", b"99999999999999999999"],
+        vec![b"-k", b"1"], vec![b"-k", b"2"], vec![b"-k", b"abc"], vec![b"-k"], vec![b"-k", b"-1"],
+        vec![b"-f", b"nosuch.ninja"], vec![b"-f", b"."], vec![b"-f", b""], vec![b"-f"], vec![b"-f", b"build.ninja", b"-f", b"build.ninja"],
+        vec![b"-C", b"nosuchdir"], vec![b"-C", b"."], vec![b"-C"], vec![b"-C", b"build.ninja"],
+        vec![b"-t", b"list"], vec![b"-t", b"bogus"], vec![b"-t"], vec![b"-t", b"restat"], vec![b"-d", b"list"], vec![b"-d", b"bogus"], vec![b"-d", b"explain"],
+        vec![b"--version"], vec![b"-h"], vec![b"--help"], vec![b"--bogus"], vec![b"-x"], vec![b"-v"],
+        vec![b"o", b"o"], vec![b"o", b"nosuch"], vec![b""], vec![b"./o"], vec![b"o/"], vec![b"-"], vec![b"--"], vec![b"--", b"-j"],
+        vec![b"\xff"], vec![b"-f", b"\xff"], vec![b"-C", b"\xff"], vec![b"-j", b"\xff"],
+    ];
+    for args in &clis {
+        let joined: Vec<u8> = args.iter().map(|a| a.to_vec()).collect::<Vec<_>>().join(&0u8);
+        ctx.count("diag_cli");
+        let case = format!("n2bin cli {}", if joined.is_empty() { "-".to_string() } else { hex(&joined) });
+        let bin2 = bin.clone();
+        let args2: Vec<Vec<u8>> = args.iter().map(|a| a.to_vec()).collect();
+        ctx.emit(&case, || {
+            tp.reset();
+            std::fs::write("build.ninja", b"rule r\n  command = true\nbuild o: r\n").unwrap();
+            let mut c = Command::new(&bin2);
+            for a in &args2 { c.arg(std::ffi::OsStr::from_bytes(a)); }
+            c.env("RUST_BACKTRACE", "0");
+            let Ok(o) = c.output() else { return "spawn-failed".into() };
+            let find = |hay: &[u8], n: &[u8]| hay.windows(n.len()).any(|w| w == n);
+            let error = find(&o.stdout, b"n2: error:") || find(&o.stderr, b"n2: error:");
+            let panic = find(&o.stderr, b"panicked") || o.status.code().is_none() || o.status.code() == Some(101);
+            format!("code={} error={} panic={}", o.status.code().unwrap_or(-1), error as u8, panic as u8)
+        });
+    }
     for tag in TAGS {
         for a in &strings {
             // a backslash / quote has no special meaning in a manifest, but '#' text and command
